@@ -16,6 +16,7 @@ RULE = ("one dataset dictionary is written both as a text file and as a NetCDF f
         "float32 precision; file type detection is probed with NetCDF bytes named .txt and text named .nc. signature = "
         "(variable-presence set, missing encodings, shuffled?); non-trivial = >= 1 optional variable and >= 1 missing "
         "encoding present.")
+RULE += " " + 'lat and lon are present independently (only one of them in 15 % of the files).'
 ASSUMPTIONS = ["metadata that neither file carries (e.g. no altitude anywhere) is not compared: the two readers' defaults "
                "for absent metadata are not part of the property",
                "location ids fit in int32 (text2nc stores them so)"]
